@@ -24,6 +24,7 @@ type CProg struct {
 	Src    string
 	Fields []Var
 	Hists  [][]Call
+	Skip   []bool // histories the C main leaves out (the interpreter ran out of fuel on them)
 }
 
 var cTypes = map[string]string{"u8": "uint8_t", "u16": "uint16_t", "u32": "uint32_t", "u64": "uint64_t",
@@ -99,6 +100,9 @@ func cMainFor(cp *CProg) string {
 	fmt.Fprintf(&b, "  printf(\"\\n\"); fflush(stdout);\n}\n")
 	fmt.Fprintf(&b, "static int run_%s(int from) {\n", cp.Pkg)
 	for hi, h := range cp.Hists {
+		if hi < len(cp.Skip) && cp.Skip[hi] {
+			continue
+		}
 		fmt.Fprintf(&b, "  if (from <= %d) {\n    %s f;\n    printf(\"H %d\\n\"); fflush(stdout);\n", hi, pk, hi)
 		fmt.Fprintf(&b, "    if (%s__initialize(&f, sizeof f, WUFFS_VERSION, 0).repr) { printf(\"init-failed\\n\"); return 3; }\n", pk)
 		for _, c := range h {
@@ -239,7 +243,7 @@ func runProg(exe string, which int, nHist int) []CHistResult {
 	res := make([]CHistResult, nHist)
 	from := 0
 	for from < nHist {
-		stdout, stderr, err := hlib.RunCmd(60*time.Second, "", []string{"ASAN_OPTIONS=detect_leaks=0:abort_on_error=0", "UBSAN_OPTIONS=print_stacktrace=0"}, nil,
+		stdout, stderr, err := hlib.RunCmd(30*time.Second, "", []string{"ASAN_OPTIONS=detect_leaks=0:abort_on_error=0", "UBSAN_OPTIONS=print_stacktrace=0"}, nil,
 			exe, fmt.Sprint(which), fmt.Sprint(from))
 		cur := -1
 		for _, ln := range strings.Split(string(stdout), "\n") {
@@ -259,7 +263,7 @@ func runProg(exe string, which int, nHist int) []CHistResult {
 		}
 		cls, msg := sanitizerClass(string(stderr))
 		if strings.Contains(err.Error(), "timeout") {
-			cls, msg = "timeout", "C run did not finish in 60 s"
+			cls, msg = "timeout", "C run did not finish in 30 s"
 		}
 		res[cur].Trap, res[cur].Msg = cls, msg
 		from = cur + 1
